@@ -3,6 +3,7 @@
  *     P = api <miss|-> <stop|-> <nslots> <slot>... <argc> <arg>...     back-end API
  *     P = sw <k> <stop|-> <argc> <arg>...                              compiled GETOPT_SWITCH loop k
  *   result: R | R | ...   R = <ev>,<ev>,...;<optind|stopped>  or assert (abort() was called)
+ *     (a string of more than 1024 bytes is shown as ~<length>.<FNV-1a-32 of its bytes>)
  * Every argv string and option name lives in a malloc of exactly strlen+1 bytes. */
 #include <setjmp.h>
 #include <signal.h>
@@ -35,7 +36,14 @@ static void sep(void) { if (!first_ev) pb_putc(','); first_ev = 0; }
 static void puts_hex(const char * s)
 {
 	static const char hd[] = "0123456789abcdef";
+	size_t n = strlen(s);
 	if (*s == 0) { pb_putc('-'); return; }
+	if (n > 1024) {		/* a very long string: ~<length>.<FNV-1a-32 of its bytes> */
+		char num[48];
+		snprintf(num, sizeof(num), "~%zu.%08x", n, (unsigned)drv_case_hash(s));
+		pb_puts(num);
+		return;
+	}
 	for (; *s; s++) { pb_putc(hd[((unsigned char)*s) >> 4]); pb_putc(hd[((unsigned char)*s) & 15]); }
 }
 static void ev1(char tag, const char * os) { sep(); pb_putc(tag); pb_putc(':'); puts_hex(os); }
